@@ -313,13 +313,17 @@ def check(pid, tier, seed, replay=None):
     root = build_tree(key)
     group = spec["group"]
     binp = build_group(root, group)
+    bins = {}
+    for sub in spec["harnesses"]:
+        bins[sub["name"]] = build_group(root, sub.get("group", group))
     build_s = time.time() - t_start
     outroot = os.path.join(root, "runs", "%s-%s-%d-%d" % (pid, tier, seed, os.getpid()))
     shutil.rmtree(outroot, ignore_errors=True)
     os.makedirs(outroot)
 
     if replay:
-        return do_replay(pid, spec, binp, replay, outroot)
+        v0 = json.load(open(replay))
+        return do_replay(pid, spec, bins.get(v0.get("harness"), binp), replay, outroot)
 
     known = [k for k in load_known() if k.get("property") == pid]
     agg = dict(runs=0, evals=0, steps=0, switches=0, sim_ms=0, hashes=set(), pairs=set(), probes={}, faults={}, offered={}, sites={}, samples=[], sigs={}, herrs=[], viols=[], wall=0.0, early=False)
@@ -332,7 +336,7 @@ def check(pid, tier, seed, replay=None):
         t0 = time.time()
         nw = sub.get("workers")
         ULIMIT_KB[0] = int(sub.get("ulimit_kb", os.environ.get("VERIF_ULIMIT_KB", "8000000")))
-        results, deaths = run_pool(binp, sub, hname, seed, runs, deadline, od, nw or NWORKERS)
+        results, deaths = run_pool(bins[hname], sub, hname, seed, runs, deadline, od, nw or NWORKERS)
         sub_wall = time.time() - t0
         sr = dict(harness=hname, runs=0, evals=0, wall_s=round(sub_wall, 1), worker_deaths=len(deaths))
         for d in results:
@@ -368,7 +372,7 @@ def check(pid, tier, seed, replay=None):
             for dth in lst[:3]:
                 if dth["culprit"] is None:
                     continue
-                rc1, out1 = run_single(binp, hname, seed, dth["culprit"], od, sub.get("env"))
+                rc1, out1 = run_single(bins[hname], hname, seed, dth["culprit"], od, sub.get("env"))
                 if rc1 != 0:
                     k2, s2 = crash_site(out1) if rc1 != -999 and rc1 != 3 else ("watchdog: case did not finish", "hang")
                     confirmed = (dth, k2, s2, rc1, out1)
@@ -408,7 +412,7 @@ def check(pid, tier, seed, replay=None):
         if v.get("process_crash"):
             ok = True
         else:
-            ok = confirm_replay(binp, v["harness"], rp, outroot, next((s.get("env") for s in spec["harnesses"] if s["name"] == v["harness"]), None))
+            ok = confirm_replay(bins.get(v["harness"], binp), v["harness"], rp, outroot, next((s.get("env") for s in spec["harnesses"] if s["name"] == v["harness"]), None))
         if ok:
             confirmed += 1
             lines.append("VIOLATION property=%s replay=%s sig=%s detail=%s" % (pid, rp, sig, (v.get("detail") or "")[:300].replace("\n", " ")))
@@ -585,8 +589,8 @@ def selftest_det(groups, seed, runs):
     for pid, spec in sorted(PROPS.items()):
         if groups and spec["group"] not in groups and pid not in groups:
             continue
-        binp = build_group(root, spec["group"])
         for sub in spec["harnesses"]:
+            binp = build_group(root, sub.get("group", spec["group"]))
             if sub.get("no_det"):
                 continue
             n = min(runs, sub["quick"])
